@@ -194,6 +194,50 @@ fn explore_ctors(r: &mut Rep, a: &Args) {
     }
 }
 
+/// Descriptor words are stored verbatim whatever they encode: every byte position x all 256 byte values on three
+/// backgrounds, through from_raw_entries (as a one-slot entry and as either half of a two-slot entry), append(UserSegment)
+/// and append(SystemSegment) (as either word).
+fn byte_sweep(r: &mut Rep, a: &Args) {
+    let tss = match unsafe { Descriptor::tss_segment_unchecked(0xffff_8123_4567_89a0 as *const TaskStateSegment) } {
+        Descriptor::SystemSegment(x, _) => x,
+        _ => 0,
+    };
+    let mut n = 0usize;
+    for bg in [0u64, u64::MAX, tss, DescriptorFlags::KERNEL_CODE64.bits()] {
+        for pos in 0..8u32 {
+            for v in 0..256u64 {
+                n += 1;
+                if n % a.nshards != a.shard {
+                    continue;
+                }
+                let w = (bg & !(0xffu64 << (8 * pos))) | v << (8 * pos);
+                r.transitions += 1;
+                let case = format!("gdtbytes {:#x}", w);
+                let other = 0x1357_9bdf_0246_8aceu64;
+                let res = catch(|| {
+                    let a1 = raw(&GlobalDescriptorTable::<4>::from_raw_entries(&[0, w]));
+                    let a2 = raw(&GlobalDescriptorTable::<4>::from_raw_entries(&[0, w, other]));
+                    let a3 = raw(&GlobalDescriptorTable::<4>::from_raw_entries(&[0, other, w]));
+                    let mut g = GlobalDescriptorTable::<4>::empty();
+                    let s1 = g.append(Descriptor::UserSegment(w));
+                    let b1 = raw(&g);
+                    let mut g = GlobalDescriptorTable::<4>::empty();
+                    let s2 = g.append(Descriptor::SystemSegment(w, other));
+                    let b2 = raw(&g);
+                    let mut g = GlobalDescriptorTable::<4>::empty();
+                    g.append(Descriptor::SystemSegment(other, w));
+                    let b3 = raw(&g);
+                    (a1, a2, a3, b1, b2, b3, s1.0, s2.0)
+                });
+                let rpl = ((w >> 45) & 3) as u16;
+                if res != Ok((vec![0, w], vec![0, w, other], vec![0, other, w], vec![0, w], vec![0, w, other], vec![0, other, w], 8 | rpl, 8 | rpl)) {
+                    r.viol("C14|descriptor-word-not-stored-verbatim-or-selector-wrong", &case, &format!("{:x?}", res));
+                }
+            }
+        }
+    }
+}
+
 fn fill_big(r: &mut Rep, pattern: &str) {
     const M: usize = 8192;
     let mut g: Box<GlobalDescriptorTable<M>> = Box::new(GlobalDescriptorTable::<M>::empty());
@@ -269,6 +313,8 @@ pub fn run(a: &Args) {
                 }
             }
             replay_hist(&mut r, m, &descs, c);
+        } else if t[0] == "gdtbytes" {
+            byte_sweep(&mut r, &Args { prop: "C14".into(), tier: "quick".into(), shard: 0, nshards: 1, replay: None, extra: vec![] });
         } else if t[0] == "gdtload" {
             crate::c12load::run_gdt(&mut r);
         } else {
@@ -286,10 +332,12 @@ pub fn run(a: &Args) {
     guarded(&mut r, "C14|MAX=8|unexpected-panic", || "gdt 8".into(), |r| explore::<8>(r, a, if t { 3 } else { 2 }));
     guarded(&mut r, "C14|MAX=9|unexpected-panic", || "gdt 9".into(), |r| explore::<9>(r, a, if t { 3 } else { 2 }));
     guarded(&mut r, "C14|MAX=8|unexpected-panic", || "gdt 8 ctors".into(), |r| explore_ctors(r, a));
+    guarded(&mut r, "C14|MAX=4|unexpected-panic", || "gdtbytes".into(), |r| byte_sweep(r, a));
     if a.shard == 0 {
         for p in ["user", "system", "alternating"] {
             guarded(&mut r, "C14|MAX=8192|unexpected-panic", || format!("gdtfill {}", p), |r| fill_big(r, p));
         }
+        guarded(&mut r, "C14|const-context|unexpected-panic", || "constctx".into(), |r| crate::constctx::gdt(r));
         guarded(&mut r, "C14|load|unexpected-panic", || "gdtload".into(), |r| crate::c12load::run_gdt(r));
     }
     r.evals = 0;
